@@ -1,7 +1,7 @@
 // C19/C03: nonce-cookie accessors on server-chosen text.  Child module of attributes/stun/nonce.rs.
 //
-// The text is assembled structurally (DESIGN C03): "obMatJos2" + K printable ASCII bytes + one
-// multi-byte UTF-8 character of W bytes (every code point of that width) + "xyz".  It is handed to
+// The text is assembled structurally (DESIGN C03): "obMatJos2" + K printable ASCII bytes + a
+// non-ASCII sequence exactly as the real grammar admits it + "xyz".  It is handed to
 // the accessors as a Nonce built without running the pest grammar (the grammar is over-approximated:
 // any such string may be a nonce).  A counterexample is replayed natively through the real
 // `Nonce::new` (see /verif/lib/rv/native.py) before it is reported.
@@ -9,9 +9,14 @@
 use super::*;
 use crate::support_common::*;
 
-fn nonce_from_bytes(v: Vec<u8>) -> Nonce {
+fn nonce_from_bytes(v: Vec<u8>) -> Option<Nonce> {
     let s = unsafe { String::from_utf8_unchecked(v) };
-    Nonce(crate::strings::verif_strings::quoted_unchecked(s))
+    if crate::verif_cfg::NATIVE_REPLAY {
+        // native replay of a counterexample: the text goes through the real constructor and the
+        // real pest grammar; a text the grammar rejects is not an input the accessor can see
+        return Nonce::new(s.as_str()).ok();
+    }
+    Some(Nonce(crate::strings::verif_strings::quoted_unchecked(s)))
 }
 
 fn ascii_qd() -> u8 {
@@ -20,8 +25,11 @@ fn ascii_qd() -> u8 {
     c
 }
 
-fn c19_nonce_cookie_2<const K: usize, const N: usize>() {
-    // N = 9 + K + 2 + 3
+// non-ASCII per the real grammar (quoted-string-parser, char based): utf8_nonascii =
+// U+00C0..DF followed by one U+0080..BF | U+00E0..EF followed by two U+0080..BF | ...; every one
+// of these chars is two bytes in UTF-8.  K ASCII chars, then a lead char for C continuation
+// chars, then the C continuation chars, then "xyz".  N = 9 + K + 2 + 2*C + 3.
+fn c19_nonce_cookie_u<const K: usize, const C: usize, const N: usize>() {
     let mut b = [0u8; N];
     b[..9].copy_from_slice(b"obMatJos2");
     let mut i = 0;
@@ -29,45 +37,29 @@ fn c19_nonce_cookie_2<const K: usize, const N: usize>() {
         b[9 + i] = ascii_qd();
         i += 1;
     }
-    let b0: u8 = kani::any();
-    let b1: u8 = kani::any();
-    kani::assume(b0 >= 0xc2 && b0 <= 0xdf && b1 >= 0x80 && b1 <= 0xbf);
-    b[9 + K] = b0;
-    b[9 + K + 1] = b1;
-    b[9 + K + 2] = b'x';
-    b[9 + K + 3] = b'y';
-    b[9 + K + 4] = b'z';
-    let nonce = nonce_from_bytes(b.to_vec());
-    let is = nonce.is_nonce_cookie();
-    let f = nonce.security_features();
-    assert!(is || f.is_err());
-    kani::cover!(is);
-    std::mem::forget(f);
-    std::mem::forget(nonce);
-}
-
-fn c19_nonce_cookie_3<const K: usize, const N: usize>() {
-    // N = 9 + K + 3 + 3 ; 3-byte characters U+0800..U+FFFF without surrogates
-    let mut b = [0u8; N];
-    b[..9].copy_from_slice(b"obMatJos2");
-    let mut i = 0;
-    while i < K {
-        b[9 + i] = ascii_qd();
-        i += 1;
+    let lead: u8 = kani::any();
+    if C == 1 {
+        kani::assume(lead >= 0x80 && lead <= 0x9f); // C3 80..9F = U+00C0..U+00DF
+    } else {
+        kani::assume(lead >= 0xa0 && lead <= 0xaf); // C3 A0..AF = U+00E0..U+00EF
     }
-    let b0: u8 = kani::any();
-    let b1: u8 = kani::any();
-    let b2: u8 = kani::any();
-    kani::assume(b0 >= 0xe0 && b0 <= 0xef && b1 >= 0x80 && b1 <= 0xbf && b2 >= 0x80 && b2 <= 0xbf);
-    kani::assume(!(b0 == 0xe0 && b1 < 0xa0));
-    kani::assume(!(b0 == 0xed && b1 >= 0xa0));
-    b[9 + K] = b0;
-    b[9 + K + 1] = b1;
-    b[9 + K + 2] = b2;
-    b[9 + K + 3] = b'x';
-    b[9 + K + 4] = b'y';
-    b[9 + K + 5] = b'z';
-    let nonce = nonce_from_bytes(b.to_vec());
+    b[9 + K] = 0xc3;
+    b[9 + K + 1] = lead;
+    let mut c = 0;
+    while c < C {
+        let cont: u8 = kani::any();
+        kani::assume(cont >= 0x80 && cont <= 0xbf); // C2 80..BF = U+0080..U+00BF
+        b[9 + K + 2 + 2 * c] = 0xc2;
+        b[9 + K + 3 + 2 * c] = cont;
+        c += 1;
+    }
+    b[N - 3] = b'x';
+    b[N - 2] = b'y';
+    b[N - 1] = b'z';
+    let nonce = match nonce_from_bytes(b.to_vec()) {
+        Some(n) => n,
+        None => return,
+    };
     let is = nonce.is_nonce_cookie();
     let f = nonce.security_features();
     assert!(is || f.is_err());
@@ -85,7 +77,10 @@ fn c19_nonce_cookie_ascii<const K: usize, const N: usize>() {
         b[9 + i] = ascii_qd();
         i += 1;
     }
-    let nonce = nonce_from_bytes(b.to_vec());
+    let nonce = match nonce_from_bytes(b.to_vec()) {
+        Some(n) => n,
+        None => return,
+    };
     let is = nonce.is_nonce_cookie();
     assert!(is == (K >= 4));
     let f = nonce.security_features();
@@ -97,22 +92,21 @@ fn c19_nonce_cookie_ascii<const K: usize, const N: usize>() {
 }
 
 macro_rules! inst {
-    ($($name:ident = $f:ident($k:expr, $n:expr);)*) => {$(
+    ($($name:ident = $f:ident($($a:expr),*);)*) => {$(
         #[kani::proof]
         #[kani::unwind(11)]
         #[kani::stub(alloc::fmt::format, nofmt)]
-        fn $name() { $f::<$k, $n>(); }
+        fn $name() { $f::<$($a),*>(); }
     )*};
 }
 inst! {
-    c19_nonce_cookie_k0_w2 = c19_nonce_cookie_2(0, 14);
-    c19_nonce_cookie_k1_w2 = c19_nonce_cookie_2(1, 15);
-    c19_nonce_cookie_k2_w2 = c19_nonce_cookie_2(2, 16);
-    c19_nonce_cookie_k3_w2 = c19_nonce_cookie_2(3, 17);
-    c19_nonce_cookie_k4_w2 = c19_nonce_cookie_2(4, 18);
-    c19_nonce_cookie_k1_w3 = c19_nonce_cookie_3(1, 16);
-    c19_nonce_cookie_k2_w3 = c19_nonce_cookie_3(2, 17);
-    c19_nonce_cookie_k3_w3 = c19_nonce_cookie_3(3, 18);
+    c19_nonce_cookie_k0_c1 = c19_nonce_cookie_u(0, 1, 16);
+    c19_nonce_cookie_k1_c1 = c19_nonce_cookie_u(1, 1, 17);
+    c19_nonce_cookie_k2_c1 = c19_nonce_cookie_u(2, 1, 18);
+    c19_nonce_cookie_k3_c1 = c19_nonce_cookie_u(3, 1, 19);
+    c19_nonce_cookie_k4_c1 = c19_nonce_cookie_u(4, 1, 20);
+    c19_nonce_cookie_k0_c2 = c19_nonce_cookie_u(0, 2, 18);
+    c19_nonce_cookie_k1_c2 = c19_nonce_cookie_u(1, 2, 19);
     c19_nonce_cookie_ascii_k3 = c19_nonce_cookie_ascii(3, 12);
     c19_nonce_cookie_ascii_k4 = c19_nonce_cookie_ascii(4, 13);
     c19_nonce_cookie_ascii_k6 = c19_nonce_cookie_ascii(6, 15);
